@@ -154,26 +154,131 @@ def havoc_callback(I, fval, args, e, env):
     return Opaque("result", ok=UNIT, desc="callback-error")
 
 
-def hook_flatten_verifier(I, args, node):
-    self = I.deref(args[0])
-    z = I.deref(args[1])
-    n = self.fields["num_vars"].e
-    m = self.fields["V"].length()
-    I.flatten_calls.append({"role": "verifier", "z": z, "n": n, "m": m, "where": FX.short(node.get("sp"))})
-    from . import flatten as FL
 
-    return FL.shaped_return(I.F, "verifier", lambda r: Sc(ssym("wc")) if r == "wc" else sc_vec(r, m if r == "wV" else n))
+def eval_site(F):
+    """(def path, receiver) of the prover's linear-combination evaluator: `Prover::eval` under its reviewed path, or --
+    when a clean-up moved it next to the assignment it reads -- the one function of r1cs::prover taking (&Secrets, &LC) and
+    returning a scalar.  receiver is "prover" or "secrets" (what the first argument is)."""
+    try:
+        return F.resolve(P_PRV + "eval"), "prover"
+    except FX.AnchorMissing:
+        pass
+    cands = []
+    for p, fn in F.fns.items():
+        if not p.startswith("r1cs::prover::") or fn.get("expn"):
+            continue
+        sig = FX.fn_sig(fn)
+        ps = sig["params"]
+        if len(ps) == 2 and "r1cs::prover::Secrets<" in ps[0] and ps[0].startswith("&") and "LinearCombination<" in ps[1] and "ScalarField" in sig["ret"] and "Vec<" not in sig["ret"]:
+            cands.append(p)
+    if len(cands) == 1:
+        return cands[0], "secrets"
+    raise FX.AnchorMissing(P_PRV + "eval")
+
+_FLAT_SITE = {}
+FLAT_INT_ROLES = {}
 
 
-def hook_flatten_prover(I, args, node):
-    self = I.deref(args[0])
-    z = I.deref(args[1])
-    n = self.fields["secrets"].fields["a_L"].length()
-    m = self.fields["secrets"].fields["v"].length()
-    I.flatten_calls.append({"role": "prover", "z": z, "n": n, "m": m, "where": FX.short(node.get("sp"))})
-    from . import flatten as FL
+def flatten_site(F, role):
+    """Where the role's constraint flattening lives: the reviewed method `flattened_constraints(&mut self, &z)`, or -- when the
+    twins were merged -- the one crate-local function called from the role's entry point that takes a list of linear
+    combinations and one scalar and returns vectors.  {path, style, params}: params gives each parameter's role
+    (self | cons | z | int)."""
+    key = (id(F), role)
+    if key in _FLAT_SITE:
+        return _FLAT_SITE[key]
+    P = P_PRV if role == "prover" else P_VER
+    try:
+        site = {"path": F.resolve(P + "flattened_constraints"), "style": "method", "params": ["self", "z"]}
+    except FX.AnchorMissing:
+        entry = F.fn(P + ("prove_and_return_transcript" if role == "prover" else "verification_scalars"))
+        called = set()
+        for n_ in FX.walk(entry["body"]):
+            if n_["k"] in ("Call", "MethodCall"):
+                ci = FX.callee_info(n_)
+                for p_ in (ci.get("resolved"), ci.get("path")):
+                    if p_:
+                        called.add(FX.canon_path(p_))
+        cands = []
+        for p_, fn in F.fns.items():
+            if fn.get("expn") or FX.canon_path(p_) not in called:
+                continue
+            sig = FX.fn_sig(fn)
+            roles = []
+            for ty in sig["params"]:
+                if "LinearCombination<" in ty and (ty.startswith("&[") or "Vec<" in ty):
+                    roles.append("cons")
+                elif ty == "usize":
+                    roles.append("int")
+                else:
+                    roles.append("z")
+            if roles.count("cons") == 1 and roles.count("z") == 1 and "Vec<" in sig["ret"]:
+                cands.append((p_, roles))
+        if len(cands) != 1:
+            raise FX.AnchorMissing(P + "flattened_constraints")
+        site = {"path": cands[0][0], "style": "free", "params": cands[0][1]}
+    _FLAT_SITE[key] = site
+    return site
 
-    return FL.shaped_return(I.F, "prover", lambda r: sc_vec(r, m if r == "wV" else n))
+
+def _flatten_hook(role):
+    def hook(I, args, node):
+        from . import flatten as FL
+        from .alg import eq as _eq, vec_eq as _veq
+
+        site = flatten_site(I.F, role)
+        vals = [I.deref(a) for a in args]
+        if site["style"] == "method":
+            self = vals[0]
+            z = vals[1]
+            if role == "verifier":
+                n, m = self.fields["num_vars"].e, self.fields["V"].length()
+            else:
+                n, m = self.fields["secrets"].fields["a_L"].length(), self.fields["secrets"].fields["v"].length()
+        else:
+            # shared helper: it must be handed this role's whole constraint list, its gate count and its commitment count
+            obj = getattr(I, "role_obj", {}).get(role)
+            if obj is None:
+                raise Unanalysable("flattening helper called outside a role run")
+            if role == "verifier":
+                n, m = I.deref(obj.fields["num_vars"]).e, I.deref(obj.fields["V"]).length()
+            else:
+                sec = I.deref(obj.fields["secrets"])
+                n, m = I.deref(sec.fields["a_L"]).length(), I.deref(sec.fields["v"]).length()
+            roles, z = [], None
+            for r_, v_ in zip(site["params"], vals):
+                if r_ == "cons":
+                    cons_now = I.deref(obj.fields["constraints"])
+                    if not (v_ is cons_now or (isinstance(v_, Vec) and isinstance(cons_now, Vec) and _veq(v_, cons_now, []))):
+                        raise Unanalysable("the flattening helper is not given the role's whole constraint list", FX.short(node.get("sp")))
+                    roles.append("cons")
+                elif r_ == "z":
+                    z = v_
+                    roles.append("z")
+                elif isinstance(v_, IntV) and _eq(v_.e, n):
+                    roles.append("n")
+                elif isinstance(v_, IntV) and _eq(v_.e, m):
+                    roles.append("m")
+                else:
+                    raise Unanalysable(f"size argument {v_!r} of the flattening helper is neither the gate count {n} nor the commitment count {m}", FX.short(node.get("sp")))
+            FLAT_INT_ROLES[(id(I.F), role)] = roles
+        I.flatten_calls.append({"role": role, "z": z, "n": n, "m": m, "where": FX.short(node.get("sp"))})
+        if role == "verifier":
+            return FL.shaped_return(I.F, role, lambda r: Sc(ssym("wc")) if r == "wc" else sc_vec(r, m if r == "wV" else n))
+        # a shared helper also hands the prover the constant weight, which the prover has no use for: poisoned, so that any
+        # use of it stops the analysis (fail closed)
+        return FL.shaped_return(I.F, role, lambda r: Opaque("unused-constant-weight") if r == "wc" else sc_vec(r, m if r == "wV" else n))
+
+    return hook
+
+
+hook_flatten_verifier = _flatten_hook("verifier")
+hook_flatten_prover = _flatten_hook("prover")
+
+
+def flatten_hooks(F, role):
+    """{def path: hook} for the role's flattening site"""
+    return {flatten_site(F, role)["path"]: hook_flatten_verifier if role == "verifier" else hook_flatten_prover}
 
 
 def hook_exp_iter(I, args, node):
